@@ -101,6 +101,11 @@ func SpecStackName(k string) string { return k }
 //@   loop 1: invariant forall q string, c string :: ucfg.pgcounter[pgkey{q, c}] <==> (exists i int, j int :: 0 <= i && i <= rangeindex && 0 <= j && j < len(cfg.Programs[i].Counters) && cfg.Programs[i].Name == q && specExpands(cfg.Programs[i].Counters[j].Name, c))
 //@   loop 3: invariant forall q string, c string :: ucfg.pgcounter[pgkey{q, c}] <==> loopentry(ucfg.pgcounter[pgkey{q, c}]) || (q == p.Name && (exists j int :: 0 <= j && j <= rangeindex && specExpands(p.Counters[j].Name, c)))
 //@   loop 4: invariant forall q string, e string :: ucfg.pgcounter[pgkey{q, e}] <==> loopentry(ucfg.pgcounter[pgkey{q, e}]) || (q == p.Name && (exists k int :: 0 <= k && k <= rangeindex && rangeexpr[k] == e))
+//@   view rates
+// The rates of counters and of stack counters are kept apart: entering a
+// program's stacks does not touch the table the counters' rates are looked up
+// in (a stack may have the name of a counter of the same program).
+//@   loop 5: invariant forall q string, n string :: same(ucfg.rate[pgkey{q, n}], loopentry(ucfg.rate[pgkey{q, n}]))
 //@   view all
 // Still assumed: the rate table (last writer wins) holds the rate of one of the
 // entries that list the name.
